@@ -85,7 +85,7 @@ PROPS = {
                       {"pkg": "httpauth", "fuzz": "FuzzC14Credential", "thorough": {"fuzztime": "180s", "wall": 900}}]},
     "C15": {"level": "exploration", "assumptions": SIM_ASSUME, "parts": [sim("TestC15", q=(250, 4), t=(3000, 16))]},
     "C16": {"level": "exploration", "assumptions": SIM_ASSUME + ["the binary part observes a reload through jobs scheduled over HTTP; a reload request (SIGUSR1 / poll) is given 3 s to take effect"],
-            "parts": [sim("TestC16"), STORM("TestC16Storm", q=(80, 2)), STORM("TestC16Race", q=(12, 2), t=(800, 8)), rp("procs", "TestC16Binary", (3, 1), (40, 4), helpers=["cmd/vhelper", "pkg:github.com/Flowpack/prunner/cmd/prunner"])]},
+            "parts": [sim("TestC16"), STORM("TestC16Storm", q=(80, 2)), STORM("TestC16Race", q=(12, 2), t=(800, 8)), rp("procs", "TestC16Binary", (6, 2), (40, 4), helpers=["cmd/vhelper", "pkg:github.com/Flowpack/prunner/cmd/prunner"])]},
     "C17": {"level": "exploration", "assumptions": PURE_ASSUME,
             "parts": [rp("inputs", "TestC17Load", (300, 2), (5000, 8)), rp("inputs", "TestC17Corrupt", (600, 2), (10000, 8)), rp("inputs", "TestC17Equals", (5000, 2), (100000, 8)), rp("inputs", "TestC17Reload", (300, 2), (6000, 8)),
                       rp("procs", "TestC17Binary", (3, 1), (40, 4), helpers=["cmd/vhelper", "pkg:github.com/Flowpack/prunner/cmd/prunner"]),
